@@ -204,14 +204,17 @@ def custom(job):
     from jsonschema import exceptions, validators
     out, tried = [], 0
 
-    class Listed(Exception):
-        pass
-
-    class Unlisted(Exception):
-        pass
-    behaviours = [("ret", v) for v in (True, 1, "x", [0], 2.5, False, 0, 0.0, "", [], {}, None)] + [("listed", None), ("unlisted", None)]
     instances = [None, True, 0, 1, 1.5, "s", "", [], [1], {}, {"a": 1}]
+    combos = []
+    for base in (Exception, KeyError, ValueError, TypeError, LookupError, AttributeError, IndexError):
+        L = type("Listed", (base,), {})
+        U = type("Unlisted", (base,), {})
+        bs = [("listed", None), ("unlisted", None)]
+        if base is Exception:
+            bs = [("ret", v) for v in (True, 1, "x", [0], 2.5, False, 0, 0.0, "", [], {}, None)] + bs
+        combos.append((L, U, bs))
     for d, cls in ((3, validators.Draft3Validator), (4, validators.Draft4Validator), (6, validators.Draft6Validator), (7, validators.Draft7Validator)):
+      for Listed, Unlisted, behaviours in combos:
         for kind, val in behaviours:
             for inst in instances:
                 tried += 1
